@@ -181,7 +181,7 @@ def run(ctx):
             if f in CONSTRUCTION_ONLY:
                 bad = (b, s, "written outside the node constructors")
             elif f == "rule_index":
-                okv = rv is not None and b.path == E.path and (
+                okv = rv is not None and b.path in S.entry_family and (
                     (rv["k"] == "use" and rv["op"]["k"] in ("move", "copy")) or (rv["k"] == "binop" and rv["op"] == "Add"))
                 if okv:
                     # the stored value must be rule_index + 1 (checked on paths)
